@@ -1,6 +1,6 @@
 """C08 Fast-mode dataset equals light-mode items, however it is initialised."""
 import astq
-from rules import cgsize, dsinit, rv64, rvhsem, x86hsem, aeshw, a64dsread, rvdsread
+from rules import cgsize, dsinit, rv64, rvhsem, x86hsem, aeshw, a64dsread, rvdsread, x86loop
 
 LEVEL = 'other'
 TECHNIQUE = 'affine / interval case analysis of randomx_init_dataset over (count mod 4) x (count < 4) regions, constant-table agreement spec vs C++ vs assembled object, call-sequence and shape rules on the item construction; evaluation of the address-arithmetic slice on a sample set of ranges'
@@ -28,6 +28,9 @@ CLAIM += (' The hand-written pieces of the A64 dataset-item routine, executed on
 EXPLANATION += ' RV-DSITEM-HSEM.'
 CLAIM += (' The same for the pieces of the RV64 SuperscalarHash routine, with the constants read from the assembled literal pool (RV-DSITEM-HSEM, both ISA variants).')
 
+EXPLANATION += ' X86-DSITEM.'
+CLAIM += (' The hand-written x86-64 pieces pair register i with the i-th constant label, select the cache line as cache memory + (value & (CacheSize / 64 - 1)) * 64, XOR word i into register i and store the eight registers in order (X86-DSITEM; forms the rule does not read are exit 2).')
+
 
 def run(ctx, R):
     F = astq.Facts(ctx, 'K0')
@@ -42,3 +45,4 @@ def run(ctx, R):
     aeshw.rule_rvv_jit_vlen(ctx, R)
     a64dsread.rule_dsitem(ctx, R)
     rvdsread.rule_dsitem(ctx, R)
+    x86loop.rule_dsitem(ctx, R)
